@@ -29,3 +29,19 @@ Definition reviewed_shared_state : list string :=
 Lemma class_shared_state_reviewed_proof :
   forallb (fun e => mem (fst e) reviewed_shared_state) class_shared_state = true.
 Proof. vm_compute. reflexivity. Qed.
+
+(* no module of exactpack/solvers keeps a module-level container that a function mutates (no caches / registries that survive a call) *)
+Lemma no_module_caches_proof : module_mutated_containers = [].
+Proof. reflexivity. Qed.
+
+(* attributes read before being written inside a non-constructor method, reviewed: both re-store the value they were given
+   (nED_Solver.setup_solver runs during construction and stores prob.problem = the problem it was passed; the 2-D Riemann
+   IGEOS_Solver._run stores back prob.bottom_state / prob.top_state, the states it has just passed in) - idempotent; exercised by the
+   dynamic history run *)
+Definition reviewed_carried_state : list string :=
+  ["exactpack.solvers.radshocks.nED_radshocks.nED_Solver";
+   "exactpack.solvers.riemann2D_2section_steadystate.ep_riemann2D_2section_steadystate.IGEOS_Solver"].
+
+Lemma instance_carried_state_reviewed_proof :
+  forallb (fun e => mem (fst e) reviewed_carried_state) instance_carried_state = true.
+Proof. vm_compute. reflexivity. Qed.
